@@ -146,6 +146,7 @@ mutual
     | .date _ => true
     | .tdelta _ => true
     | .cdelta _ => true
+    | .fdt _ => true
     | .nat => true
     | .list xs => EVal.labelsOkList xs
     | .tuple xs => EVal.labelsOkList xs
@@ -198,6 +199,7 @@ theorem eqN_refl_aux : ∀ n, ∀ a : EVal, sizeOf a ≤ n → eqN a a = true :=
     case date d => simp
     case tdelta d => simp
     case cdelta d => simp
+    case fdt d => simp
     case list xs => simp at h; exact hlist xs (by omega)
     case tuple xs => simp at h; exact hlist xs (by omega)
     case arr s xs => simp at h; exact ⟨by simp, hlist xs (by omega)⟩
@@ -238,6 +240,7 @@ theorem eqN_symm_aux : ∀ n, ∀ a b : EVal, sizeOf a ≤ n → eqN a b = eqN b
     case date.date x y => exact Bool.beq_comm
     case tdelta.tdelta x y => exact Bool.beq_comm
     case cdelta.cdelta x y => exact Bool.beq_comm
+    case fdt.fdt x y => exact Bool.beq_comm
     case list.list xs ys => simp at h; exact hlist xs ys (by omega)
     case tuple.tuple xs ys => simp at h; exact hlist xs ys (by omega)
     case arr.arr s xs t ys =>
@@ -282,6 +285,7 @@ theorem eqN_trans_aux : ∀ n, ∀ a b c : EVal, sizeOf a ≤ n →
     case date.date.date x y z => simp at hab hbc ⊢; omega
     case tdelta.tdelta.tdelta x y z => simp at hab hbc ⊢; omega
     case cdelta.cdelta.cdelta x y z => simp at hab hbc ⊢; omega
+    case fdt.fdt.fdt x y z => simp at hab hbc ⊢; omega
     case list.list.list xs ys zs => simp at h; exact hlist xs ys zs (by omega) hab hbc
     case tuple.tuple.tuple xs ys zs => simp at h; exact hlist xs ys zs (by omega) hab hbc
     case arr.arr.arr s xs t ys u zs =>
@@ -361,6 +365,7 @@ mutual
     | .date _, _ => rfl
     | .tdelta _, _ => rfl
     | .cdelta _, _ => rfl
+    | .fdt _, _ => rfl
     | .nat, _ => rfl
     | .list xs, h => by
         simp only [EVal.norm, EVal.labelsOk] at h ⊢; exact normList_labelsOk xs h
@@ -400,6 +405,7 @@ def EVal.kind : EVal → Nat × Nat
   | .date _ => (0, 0)
   | .tdelta _ => (0, 0)
   | .cdelta _ => (0, 0)
+  | .fdt _ => (0, 0)
   | .nat => (0, 0)
   | .list _ => (1, 0)
   | .tuple _ => (2, 0)
